@@ -623,17 +623,29 @@ func (g *gen) scenario() scenario {
 		root, kind = g.cidText()
 	default:
 		root, kind = g.name()
-		// DNSLink records: usually on the name itself; sometimes on its inlined / un-inlined twin or nowhere
+		// DNSLink records for the name in both spellings — the FQDN and its inlined single
+		// label — in all four combinations: FQDN only / label only / both / neither
+		fq, lab := root, inlineRef(root)
+		if !strings.Contains(root, ".") {
+			fq, lab = uninlineRef(root), root
+		}
 		switch g.n(8) {
-		case 0:
-		case 1:
-			sc.recs[uninlineRef(root)] = true
-		case 2:
-			sc.recs[root], sc.recs[uninlineRef(root)] = true, true
-		case 3:
-			sc.recs[inlineRef(root)] = true
+		case 0, 1, 2:
+			sc.recs[fq] = true
+		case 3, 4:
+			sc.recs[lab] = true
+		case 5, 6:
+			sc.recs[fq], sc.recs[lab] = true, true
+		}
+		switch {
+		case sc.recs[fq] && sc.recs[lab]:
+			kind += "/rec-both"
+		case sc.recs[fq]:
+			kind += "/rec-fqdn"
+		case sc.recs[lab]:
+			kind += "/rec-label"
 		default:
-			sc.recs[root] = true
+			kind += "/rec-none"
 		}
 	}
 	rest, query, frag := g.rest(), g.query(), g.frag()
@@ -816,7 +828,17 @@ func corpus() []scenario {
 			mk(sub, nil, t+"."+bl.ns+".dweb.link", "/x", "", "", false, &intent{Gw: "dweb.link", Ns: bl.ns, Root: t, Rest: "x"}, bl.ns),
 			mk(sub, nil, "dweb.link", "/"+bl.ns+"/"+t+"/x", "", "", false, &intent{Gw: "dweb.link", Ns: bl.ns, Root: t, Rest: "x"}, bl.ns))
 	}
+	const fq, lab = "my.v-long.example.com", "my-v--long-example-com"
+	both := []string{fq, lab}
 	return append([]scenario{
+		// FQDN and its inlined label BOTH have a DNSLink record: the FQDN takes precedence in host -> path
+		// (https redirect, inlining gateway, direct subdomain request; then label-only / neither)
+		mk(sub, both, "dweb.link", "/ipns/"+fq+"/dir/file", "x=1", "", true, &intent{Gw: "dweb.link", Ns: "ipns", Root: fq, Rest: "dir/file", Query: "x=1", HTTPS: true}, "ipns"),
+		mk(subInline, both, "dweb.link", "/ipns/"+fq+"/dir/file", "x=1", "", false, &intent{Gw: "dweb.link", Ns: "ipns", Root: fq, Rest: "dir/file", Query: "x=1"}, "ipns"),
+		mk(sub, both, lab+".ipns.dweb.link", "/a", "", "", false, &intent{Gw: "dweb.link", Ns: "ipns", Root: lab, Rest: "a"}, "ipns"),
+		mk(sub, []string{lab}, lab+".ipns.dweb.link", "/a", "", "", false, &intent{Gw: "dweb.link", Ns: "ipns", Root: lab, Rest: "a"}, "ipns"),
+		mk(subInline, []string{lab}, "dweb.link", "/ipns/"+fq+"/a", "", "", false, &intent{Gw: "dweb.link", Ns: "ipns", Root: fq, Rest: "a"}, "ipns"),
+		mk(subInline, nil, "dweb.link", "/ipns/"+fq+"/a", "", "", false, &intent{Gw: "dweb.link", Ns: "ipns", Root: fq, Rest: "a"}, "ipns"),
 		// the fragment of the request URL (finding C32-1 when it is dropped)
 		mk(sub, nil, "dweb.link", "/ipfs/bafkqaaa/a", "x=1", "top", false, &intent{Gw: "dweb.link", Ns: "ipfs", Root: "bafkqaaa", Rest: "a", Query: "x=1", Frag: "top"}, "ipfs"),
 		mk(sub, nil, "dweb.link", "/ipfs/"+v0+"/this is ? a file.png", "", "", false, &intent{Gw: "dweb.link", Ns: "ipfs", Root: v0, Rest: "this is ? a file.png"}, "ipfs"),
